@@ -315,6 +315,27 @@ theorem C10_center_of_mass_in_bounds (nd maxlabel label size lsize : Int) (h0 : 
     ∀ a ∈ comAccesses nd maxlabel label size lsize, 0 ≤ a.i ∧ a.i < a.size :=
   comAccesses_ok nd maxlabel label size lsize h0 h1 hs
 
+/-- **B7, cooccurence.** `++res.at(val, val2)` is inside a result of shape `(m0, m1)` whenever both
+dimensions exceed the largest pixel value (`output = zeros((max+1, max+1))`, the default allocation);
+negative values are rejected by the kernel before the access. -/
+theorem C10_cooccurence_in_bounds (m0 m1 maxv v v2 : Int) (hv : v ≤ maxv) (hv2 : v2 ≤ maxv)
+    (hm0 : maxv < m0) (hm1 : maxv < m1) :
+    ∀ a ∈ coocAccesses m0 m1 v v2, 0 ≤ a.i ∧ a.i < a.size :=
+  coocAccesses_ok m0 m1 maxv v v2 hv hv2 hm0 hm1
+
+/-- **B7, the wrapper's assertion for a user-supplied `output` is off by one**
+(`texture.py:438`: `assert np.min(output.shape) >= f.max()`): a 3×3 output passes it for an image
+whose maximum is 3, but the pixel value 3 indexes row 3 of 3. -/
+theorem C10_cooccurence_assertion_off_by_one :
+    min (3 : Int) 3 ≥ 3 ∧ allOk (coocAccesses 3 3 3 0) = false := by decide
+
+/-- **B7, compute_plus_minus.** For an `N × N` matrix, `px_plus_y.at(i+j)` and `px_minus_y.at(|i-j|)`
+are in range when the vectors have at least `2N-1` resp. `N` elements (`texture.py:267-268` allocates
+`2·maxv` and `maxv` for `N = maxv`). -/
+theorem C10_compute_plus_minus_in_bounds (n plus minus : Int) (hp : 2 * n - 1 ≤ plus)
+    (hm : n ≤ minus) : ∀ a ∈ plusMinusAccesses n plus minus, 0 ≤ a.i ∧ a.i < a.size :=
+  plusMinusAccesses_ok n plus minus hp hm
+
 /-! non-vacuity (B7) -/
 example : (bboxAccesses 2 3 3).length = 4 ∧ allOk (bboxAccesses 2 3 3) = true ∧
     allOk (bboxAccesses 2 3 (-1)) = false ∧ allOk (bboxAccesses 2 3 4) = false := by decide
@@ -365,3 +386,6 @@ theorem C10_hitmiss_in_bounds (shape bshape : List Nat) (hne : shape ≠ [])
     fails the margin test but fits); without the margin test the model leaves the buffer. -/
 example : (hmRun [4, 5] [2, 4] true).1.length = 52 ∧ allOk (hmRun [4, 5] [2, 4] true).1 = true ∧
     (hmRun [4, 5] [2, 4] true).2 = true ∧ allOk (hmRun [4, 5] [2, 4] false).1 = false := by decide
+/-! non-vacuity (B7, texture) -/
+example : (plusMinusAccesses 3 6 3).length = 36 ∧ allOk (plusMinusAccesses 3 6 3) = true ∧
+    allOk (plusMinusAccesses 3 4 3) = false ∧ allOk (coocAccesses 4 4 3 3) = true := by decide
